@@ -314,11 +314,17 @@ package lang
 //@ func Value.PrettyString [C17]
 //@   requires v != nil
 //@   modifies nothing
-//@ func Value.prettyStringInteral [C17]
+//@ func Value.prettyStringInteral [C17,C10]
 //@   requires v != nil
 //@   modifies spare(rootValues)
+//@   ensures[C17] recurrence-is-marked: checkCircularReference && (exists k int :: 0 <= k && k < len(rootValues) && sameContainer(rootValues[k], v)) ==> result == "<circular reference>"
+//@   ensures[C17] string-raw-or-quoted: !(checkCircularReference && (exists k int :: 0 <= k && k < len(rootValues) && sameContainer(rootValues[k], v))) && v.Tag == ValueStr ==> result == (quote ? "\"" + *v.Str + "\"" : *v.Str)
+//@   ensures[C17] number-positional-decimal: v.Tag == ValueNum ==> result == fmtNum(*v.Num)
+//@   ensures[C17] booleans-and-null-as-words: (v.Tag == ValueBool ==> result == (*v.Bool ? "true" : "false")) && (v.Tag == ValueNil ==> result == "null")
+//@   assert[C17] children-get-the-extended-path: arg2 && arg3 && len(arg1) == len(rootValues) + 1 && arg1[len(rootValues)] == v && (forall k int :: 0 <= k && k < len(rootValues) ==> arg1[k] == rootValues[k]) @ Value.prettyStringInteral
+//@   loop 0 invariant no-ancestor-so-far: forall k int :: 0 <= k && k <= rangeindex ==> !sameContainer(rootValues[k], v)
 //@   loop 2 invariant own-keys: fresh(keys) && (forall j int :: 0 <= j && j < len(keys) ==> has(*v.Obj, keys[j]))
-//@   loop 3 invariant keys-present: forall j int :: 0 <= j && j < len(keys) ==> has(*v.Obj, keys[j])
+//@   loop 3 invariant[C10,C17] keys-present-and-visited-in-sorted-order: (forall j int :: 0 <= j && j < len(keys) ==> has(*v.Obj, keys[j])) && (forall i int, j int :: 0 <= i && i < j && j < len(keys) ==> scmpS(keys[i], keys[j]) <= 0)
 
 // printf is specified step by step: every byte or piece appended to the builder is justified by the
 // directive under the cursor (site assertions), the single write happens only on success, and the
@@ -1167,3 +1173,33 @@ package lang
 //@   modifies nothing
 //@   loop 0 invariant scan: !$faulted
 //@   loop 1 invariant copying: !$faulted && fresh(clone) && len(clone) == len(this.Array) && (forall k int :: 0 <= k && k <= rangeindex ==> clone[k] != nil && fresh(clone[k]))
+
+// ---------------------------------------------------------------- JSON output (C04)
+
+//@ spec func sameContainer(a *Value, b *Value) bool = a.Tag == b.Tag && ((a.Tag == ValueObj && a.Obj == b.Obj) || (a.Tag == ValueArray && cap(a.Array) > 0 && cap(b.Array) > 0 && &a.Array[cap(a.Array)-1] == &b.Array[cap(b.Array)-1]))
+
+//@ func Value.ToGoValue [C04]
+//@   requires v != nil && !$faulted
+//@   updates $faulted
+//@   modifies nothing
+//@   ensures[C11] fault-latched: $faulted <==> err != nil
+//@   ensures[C01] errkind: err == nil || isPlainErr(err)
+
+//@ func Value.toGoValueInterval [C04,C10]
+//@   requires v != nil && !$faulted
+//@   updates $faulted
+//@   modifies spare(rootValues)
+//@   ensures[C11] fault-latched: $faulted <==> err != nil
+//@   ensures[C01] errkind: err == nil || isPlainErr(err)
+//@   ensures[C04] string: v.Tag == ValueStr && err == nil ==> istype(result0, string) && as(result0, string) == *v.Str
+//@   ensures[C04] bool: v.Tag == ValueBool && err == nil ==> istype(result0, bool) && as(result0, bool) == *v.Bool
+//@   ensures[C04] number: v.Tag == ValueNum && err == nil ==> istype(result0, float64) && same(as(result0, float64), *v.Num)
+//@   ensures[C04] null: (v.Tag == ValueNil || v.Tag == ValueUnknown) && !(checkCircularReference && (exists k int :: 0 <= k && k < len(rootValues) && sameContainer(rootValues[k], v))) ==> err == nil && result0 == nil
+//@   ensures[C04] array-is-a-non-nil-list-of-the-same-length: v.Tag == ValueArray && err == nil ==> istype(result0, "[]any") && as(result0, "[]any") != nil && len(as(result0, "[]any")) == len(v.Array)
+//@   ensures[C04] object-is-a-map: v.Tag == ValueObj && err == nil ==> istype(result0, "map[string]any") && as(result0, "map[string]any") != nil && fresh(as(result0, "map[string]any"))
+//@   ensures[C04] inexpressible-is-an-error: (v.Tag == ValueFn || v.Tag == ValueNativeFn || v.Tag == ValueRegex) ==> err != nil
+//@   ensures[C04] cycle-is-an-error: checkCircularReference && (exists k int :: 0 <= k && k < len(rootValues) && sameContainer(rootValues[k], v)) ==> err != nil
+//@   assert[C04] children-get-the-extended-path: arg2 && len(arg1) == len(rootValues) + 1 && arg1[len(rootValues)] == v && (forall k int :: 0 <= k && k < len(rootValues) ==> arg1[k] == rootValues[k]) @ Value.toGoValueInterval
+//@   loop 0 invariant no-ancestor-so-far: !$faulted && (forall k int :: 0 <= k && k <= rangeindex ==> !sameContainer(rootValues[k], v))
+//@   loop 1 invariant building-list: !$faulted && fresh(array) && array != nil && len(array) == rangeindex + 1
+//@   loop 2 invariant building-map: !$faulted && obj != nil && fresh(obj)
